@@ -175,7 +175,7 @@ class DataReadout(MeterMessageBase):
         except ValueError:
             _LOGGER.debug("Invalid end line: %s", self._readout[self._end_pos :])
             return False
-        if expected_checksum:
+        if expected_checksum is not None:
             if self._calculated_crc != expected_checksum:
                 _LOGGER.debug(
                     "Expected cheksum is 0x%x, but calculated is 0x%x",
